@@ -295,6 +295,7 @@ func (r *beRun) exec(ci, oi int, op *BEOp) *beRec {
 	rec := &beRec{client: ci, idx: oi, op: op, kind: op.Kind}
 
 	if op.Kind == "sleep" {
+		e.out.fault("clock_jump")
 		zs.Sleep(dur(op.SleepNs))
 
 		return nil
